@@ -51,6 +51,9 @@ Q15 = [("kinds", 30000), ("handles", 12000), ("restart", 4000), ("lifecycle", 40
 Q06 = [("faults+faults", 700), ("tree+faults", 500), ("svcfaults+faults", 300), ("lifecycle+faults", 300)]
 Q16 = [("tree", 30000), ("tree+faults", 300), ("faults", 4000)]
 
+Q08 = [("registry", 40000), ("liveness", 6000), ("svcfaults", 2000)]
+Q09 = [("broker", 40000)]
+
 PLANS = {
     "C01": plan(Q01, scale(Q01, 40),
                 ">=2 clients submitted and both the waiting and the forcing path were used",
@@ -119,4 +122,19 @@ PLANS = {
                 ["C16.R1.child_outlives_until_parent_ends", "C16.R2.released_child_stops_gracefully", "C16.R2.accepted_messages_handled",
                  "C16.R2.child_held_outside_keeps_running", "C16.R3.broadcast_exactly_once", "C16.R3.only_registered_children",
                  "C16.R3.not_to_other_types", "C16.R3.unit_broadcast_count"]),
+    "C08": plan(Q08, scale(Q08, 40),
+                "a history in which at least two registry operations of one service type overlapped in time",
+                ["C08.R1.history_linearizable", "C08.R1.concurrent_history", "C08.R_once.default_spawns", "C08.ops.lookup", "C08.ops.register_ok",
+                 "C08.ops.register_refused", "C08.ops.replace", "C08.ops.unregister", "C08.ops.try_lookup_some", "C08.ops.try_lookup_none",
+                 "C08.ops.already_running_none", "C08.ops.already_running_true", "C08.ops.already_running_false", "C08.ops.termination"],
+                {"rule": "histories of from_registry / setup / register / replace / unregister / try_from_registry / already_running / stop / self-termination "
+                         "issued by 1-4 client tasks on 1-2 service types (<= 14 registry ops), executed on the seeded vexec; each per-type history (operations "
+                         "with begin/return stamps and observed results, instance identities learnt from replies, instance terminations as instantaneous events) "
+                         "is checked for linearizability against a sequential registry model by a memoised Wing-Gong search (2 s cap = inconclusive, counted); "
+                         "distinct = distinct trace hash; non-trivial = two registry operations of one type overlapped"}),
+    "C09": plan(Q09, scale(Q09, 40),
+                ">=2 publishers with overlapping publications on a topic, or a subscription change / subscriber termination racing a publish",
+                ["C09.R1.subscribed_exactly_once", "C09.R1.resubscribed_still_once", "C09.R2.not_subscribed_zero", "C09.R3.at_most_once",
+                 "C09.R4.common_order", "C09.R4.publisher_order_edges", "C09.R5.subscriber_dies_while_subscribed", "C09.R6.publish_returns_ok",
+                 "C09.R6.reaches_live_despite_dead"]),
 }
